@@ -108,16 +108,16 @@ Qed.
 
 (* ================================================================== de-duplication *)
 
-Lemma dedup_by_no_dups seen l : has_dup_ids seen l = false -> dedup_by pd_id seen l = l.
+Lemma dedup_written_no_dups seen l : has_dup_written seen l = false -> dedup_written_from seen l = l.
 Proof.
   revert seen. induction l as [|x t IH]; intros seen Hd; [reflexivity|].
-  cbn [has_dup_ids] in Hd. apply orb_false_iff in Hd as [Hx Ht].
-  cbn [dedup_by]. rewrite Hx, (IH _ Ht). reflexivity.
+  cbn [has_dup_written] in Hd. apply orb_false_iff in Hd as [Hx Ht].
+  cbn [dedup_written_from]. rewrite Hx, (IH _ Ht). reflexivity.
 Qed.
-Lemma dedup_no_dups l : has_dup_ids [] l = false -> dedup_pdata l = l.
-Proof. apply dedup_by_no_dups. Qed.
+Lemma dedup_no_dups l : has_dup_written [] l = false -> dedup_written l = l.
+Proof. apply dedup_written_no_dups. Qed.
 
-Lemma dedup_nil l : is_nil (dedup_pdata l) = is_nil l.
+Lemma dedup_nil l : is_nil (dedup_written l) = is_nil l.
 Proof. destruct l; reflexivity. Qed.
 
 Lemma use_definite_clone l : pl_use_definite (pl_deduplicated_clone l) = pl_use_definite l.
@@ -138,7 +138,7 @@ Qed.
 (* with the header counting the un-deduplicated list (the code as found): equal when nothing is dropped or the
    list is written with indefinite length *)
 Lemma set_bytes_clone_counting cd' l :
-  pl_use_definite l && has_dup_ids [] (pl_elems l) = false ->
+  pl_use_definite l && has_dup_written [] (pl_elems l) = false ->
   serialize_as_set_gen true true l = serialize_as_set_gen cd' false (pl_deduplicated_clone l).
 Proof.
   intros Hk. rewrite <- (set_bytes_clone cd'). unfold serialize_as_set_gen.
@@ -147,7 +147,7 @@ Proof.
 Qed.
 
 Lemma set_bytes_clone_gen cd cd' l :
-  (cd = true -> pl_use_definite l && has_dup_ids [] (pl_elems l) = false) ->
+  (cd = true -> pl_use_definite l && has_dup_written [] (pl_elems l) = false) ->
   serialize_as_set_gen cd true l = serialize_as_set_gen cd' false (pl_deduplicated_clone l).
 Proof. destruct cd; intros Hk; [apply set_bytes_clone_counting, Hk; reflexivity|apply set_bytes_clone]. Qed.
 
@@ -199,7 +199,7 @@ Proof.
       { apply set_bytes_clone_gen. intros ->. exact (Hcd eq_refl). }
       unfold set_plutus_data, set_redeemers, ws_new. cbn [pl_elems is_nil ws_plutus_scripts ws_plutus_data ws_redeemers].
       unfold ws_fields. cbn [ws_plutus_scripts ws_plutus_data ws_redeemers pl_deduplicated_clone pl_elems].
-      assert (Hne : is_nil (dedup_pdata (d0 :: dt)) = false) by reflexivity. rewrite Hne.
+      assert (Hne : is_nil (dedup_written (d0 :: dt)) = false) by reflexivity. rewrite Hne.
       destruct rl as [|r0 rt].
       * cbn [is_nil andb is_some negb orb] in Hscope. apply orb_false_iff in Hscope as [_ Hk].
         destruct (cm_keys cm) eqn:Ek; [|discriminate].
